@@ -22,9 +22,11 @@ AIH2   == Lit(PConst(R(2)), (0 :> ROne) @@ (1 :> RNeg(Half)))           \* 2 / (
 AAP    == Lit((0 :> ROne) @@ (1 :> ROne), (0 :> ROne) @@ (1 :> Half))   \* (1 + z^-1) / (1 + 1/2 z^-1)
 AZ     == Lit(Mono(-1, ROne), P1)                                       \* z (non-causal)
 AS2    == Lit((0 :> R(2)) @@ (1 :> ROne), P1)                           \* 2 + z^-1  (differs from 1 + z^-1 in the numerator only)
+AD2    == Lit(P1, PConst(R(2)))                                         \* 1 / 2 stored with denominator 2 (one-term / one-term, gain 2)
+AG     == Lit((0 :> ROne) @@ (1 :> R(-1)), PConst(R(2)))                \* (1 - z^-1) / 2
 
-AtomsAll    == {AK0, AK1, AK2, AKm1, AZi, AS, AH, AQ, AIH, AAP, AZ}
-AtomsSmall  == {AK2, AZi, AS, AH, AIH, AZ}
+AtomsAll    == {AK0, AK1, AK2, AKm1, AZi, AS, AH, AQ, AIH, AAP, AZ, AD2}
+AtomsSmall  == {AK2, AZi, AS, AH, AIH, AZ, AD2}
 Scal        == {R(2), R(-1), Half}
 BinOps      == {"add", "sub", "mul", "div", "subst"}
 NumOps      == {"add", "sub", "mul", "div"}
@@ -54,16 +56,16 @@ Trees(t) ==
 \* operand pools of the laws (trees, so that the driver can build them)
 PoolPair(t) ==
   IF t = "quick"
-  THEN {AK0, AK2, AZi, AS, AS2, AH, AQ, AIH, AIH2, AAP, AZ, Bn("mul", AS, AIH), Bn("add", AIH, AZi), Bn("div", AH, AQ)}
-  ELSE AtomsAll \cup {AS2, AIH2, Bn("mul", AS, AIH), Bn("add", AIH, AZi), Bn("div", AH, AQ), Bn("sub", AAP, AIH),
+  THEN {AK0, AK2, AZi, AS, AS2, AH, AQ, AIH, AIH2, AAP, AZ, AG, Bn("mul", AS, AIH), Bn("add", AIH, AZi), Bn("div", AH, AQ)}
+  ELSE AtomsAll \cup {AS2, AIH2, AG, Bn("sub", AQ, AS2), Bn("mul", AIH, AIH2), Bn("subst", AS, AIH), Bn("mul", AS, AIH), Bn("add", AIH, AZi), Bn("div", AH, AQ), Bn("sub", AAP, AIH),
                       Bn("mul", AZi, AZi), Pw(AIH, 2), Bn("div", AS, AAP), Bn("mul", Num(Half), AQ), Pw(AS, 2),
                       Bn("add", AZ, AK1)}
 PoolTriple(t) ==
   IF t = "quick" THEN {AK2, AZi, AS, AH, AIH, AAP, AZ}
-  ELSE {AK0, AK2, AKm1, AZi, AS, AH, AQ, AIH, AAP, AZ, Bn("mul", AS, AIH), Bn("div", AH, AQ)}
+  ELSE {AK0, AK2, AKm1, AZi, AS, AH, AQ, AIH, AIH2, AAP, AZ, AG, Bn("mul", AS, AIH), Bn("div", AH, AQ), Pw(AS, 2)}
 PoolCausal(t) ==
-  IF t = "quick" THEN {AK2, AZi, AS, AH, AQ, AIH, AAP}
-  ELSE {AK0, AK1, AK2, AKm1, AZi, AS, AH, AQ, AIH, AIH2, AAP, Bn("mul", AS, AIH), Bn("add", AIH, AZi), Bn("div", AH, AQ)}
+  IF t = "quick" THEN {AK2, AZi, AS, AH, AQ, AIH, AAP, AG}
+  ELSE {AK0, AK1, AK2, AKm1, AZi, AS, AH, AQ, AIH, AIH2, AAP, AG, AD2, Bn("mul", AS, AIH), Bn("add", AIH, AZi), Bn("div", AH, AQ)}
 
 C05Grid(t) ==
   {[kind |-> "tree", t |-> x] : x \in Trees(t)}
